@@ -293,7 +293,8 @@ Definition p_neg_chars (repaired : bool) (m : mvalue) (swapped : list N) : res m
   | _ => Err end.
 
 (** Value::couple of two arrays of the same type and shape (dyadic/combine.rs:960-1000):
-    the result has the two arguments as rows; marks by comparing them *)
+    the result has the two arguments as rows; marks by comparing them (combine.rs:988-997:
+    Less -> ascending, Greater -> descending, Equal -> neither) *)
 Definition same_ctor (a b : value) : bool :=
   match a, b with
   | VNum _ _, VNum _ _ | VByte _ _, VByte _ _ | VChar _ _, VChar _ _
@@ -315,8 +316,8 @@ Definition p_couple_same (a b : mvalue) : res mvalue :=
   | Some v =>
       let c := vcmp (mv_v a) (mv_v b) in
       Ok (MV v (FL (f_bool (mv_f a) && f_bool (mv_f b))
-                   (match c with Gt => false | _ => true end)
-                   (match c with Lt => false | _ => true end)))
+                   (match c with Lt => true | _ => false end)
+                   (match c with Gt => true | _ => false end)))
   end.
 
 (** mark rules of primitives whose data the model does not recompute: the expected marks of the
